@@ -4,6 +4,7 @@ import (
 	"bytes"
 	"encoding/hex"
 	"fmt"
+	"os"
 	"sort"
 	"strings"
 
@@ -204,6 +205,7 @@ type bitcoinStream struct {
 	*worldStream
 	net      *chaincfg.Params
 	keys     []*keys.BtcKey // registered relayer keys (last = current)
+	allKeys  []*keys.BtcKey // every key a NewPubkey message was ever generated for
 	unreg    *keys.BtcKey
 	blocks   map[uint64]*btcBlock
 	wds      map[uint64]*wd
@@ -430,9 +432,38 @@ func (s *bitcoinStream) Gen(r *tr.Rng) *tr.Op {
 		}
 		ver := tr.Pick(r, 0, 0, 1, 1, 2)
 		cur := s.cur()
-		s.keyOracles(cur)
-		if raw, err := hex.DecodeString(strings.TrimPrefix(evm, "0x")); err == nil && len(raw) == 20 && cur.Kind == "1" {
-			s.oracle("tweak", "in", tr.Hex(append(append([]byte{}, cur.Pub...), raw...)), "out", tr.Hex(keys.Tweak(cur.Pub, raw)))
+		// the key in force when the query runs is one of the most recent ones (a key change queued before it may or may
+		// not succeed): state the hash / tweak facts for each of them
+		cands := map[*keys.BtcKey]bool{}
+		for i := len(s.keys) - 1; i >= 0 && i >= len(s.keys)-3; i-- {
+			cands[s.keys[i]] = true
+		}
+		if pk, err := s.w.Btc.Pubkey.Get(s.w.Ctx); err == nil { // the key in force right now
+			raw := pk.GetSecp256K1()
+			if raw == nil {
+				raw = pk.GetSchnorr()
+			}
+			found := false
+			for _, k := range append(append([]*keys.BtcKey{}, s.keys...), s.allKeys...) {
+				if bytes.Equal(k.Pub, raw) {
+					cands[k] = true
+					found = true
+				}
+			}
+			if !found && os.Getenv("VERIF_DEBUG") != "" {
+				fmt.Fprintf(os.Stderr, "QUERY: key in force %x is not among the %d generated keys\n", raw, len(s.keys))
+			}
+		}
+		seenKey := map[*keys.BtcKey]bool{}
+		for _, k := range append(append([]*keys.BtcKey{}, s.keys...), s.allKeys...) { // deterministic order
+			if !cands[k] || seenKey[k] {
+				continue
+			}
+			seenKey[k] = true
+			s.keyOracles(k)
+			if raw, err := hex.DecodeString(strings.TrimPrefix(evm, "0x")); err == nil && len(raw) == 20 && k.Kind == "1" {
+				s.oracle("tweak", "in", tr.Hex(append(append([]byte{}, k.Pub...), raw...)), "out", tr.Hex(keys.Tweak(k.Pub, raw)))
+			}
 		}
 		s.push(tr.NewOp(fmt.Sprintf("%s/v%d-k%s", cls, ver, cur.Kind), "q.depositaddr", "version", ver, "evm", evm))
 	}
@@ -461,6 +492,7 @@ func (s *bitcoinStream) genNewKey(r *tr.Rng) {
 	if cls == "/new" && vcls == "" {
 		s.keys = append(s.keys, k)
 	}
+	s.allKeys = append(s.allKeys, k) // whichever way the vote goes, this key may become the key in force
 }
 
 // a deposit candidate: transaction in a voted (or about to be voted) block
